@@ -194,10 +194,16 @@ class _Patches:
         return False
 
 
+def _fmt(v):
+    return "%.5g" % v
+
+
 def _snapshot():
     po = np.get_printoptions()
+    fm = po.get("formatter")
     return {"err": dict(np.geterr()), "filters": [repr(f) for f in warnings.filters],
-            "print": {k: (repr(v) if callable(v) else v) for k, v in po.items() if k != "formatter"}}
+            "print": {k: (repr(v) if callable(v) else v) for k, v in po.items() if k != "formatter"},
+            "formatter": None if fm is None else sorted((k, getattr(v, "__name__", repr(v))) for k, v in fm.items())}
 
 
 def _invoke(w, case, world):
@@ -209,6 +215,13 @@ def _invoke(w, case, world):
             return w(x, y, np.array([0.0, 4.0, 9.0]))
         if e == "to_fits":
             return w.to_fits(max_pix_error=50, max_inv_pix_error=50, npoints=8, degree=m.get("degree"), sampling=0.5)
+    if e == "footprint_center":
+        return w.footprint(center=True)
+    if e == "w2aiv":
+        return w.world_to_array_index_values(*world)
+    if e == "sip_smallbox":
+        # an invalid-argument exit of the SIP export: a box narrower than a pixel
+        return w.to_fits_sip(bounding_box=((10, 10.5), (0, 99)))
     if e == "forward":
         return w(x, y)
     if e == "invert":
@@ -241,7 +254,9 @@ def _run(case, crash, world):
         over0, invalid0 = case.get("err0", ["warn", "warn"])     # the session's own settings: any mix of warn / ignore
         np.seterr(divide="ignore", under="warn", over=over0, invalid=invalid0)
         warnings.filterwarnings("ignore", message="verif marker filter")
-        np.set_printoptions(precision=5)
+        np.set_printoptions(precision=5, formatter={"float_kind": _fmt})      # the session's own number format
+        if case.get("user_filter"):
+            warnings.simplefilter("ignore", RuntimeWarning)      # the session has switched numpy's RuntimeWarnings off itself
         w = _build(case)
         _ST["n"], _ST["crash"], _ST["trace"] = 0, crash, []
         _ST["interrupt"] = bool(case.get("interrupt"))
@@ -271,6 +286,8 @@ def _run(case, crash, world):
         if hasattr(warnings, "_filters_mutated"):
             warnings._filters_mutated()
         np.set_printoptions(**{k: v for k, v in saved_po.items()})
+        if saved_po.get("formatter") is None:
+            np.set_printoptions(formatter=None)
 
 
 def impl(case):
@@ -357,6 +374,13 @@ def gen(rng, tier):
         p["scale"] = 10 ** rng.uniform(-5, -4)
         yield {"wcs": wk, "entry": entry, "mode": mode, "analytic": False, "params": p, "err0": rng.choice([["warn", "warn"], ["ignore", "warn"]]),
                "ks": [rng.randint(0, 1000) for _i in range(2)] if q else "all", "interrupt": rng.random() < 0.4}
+    # entry points that round positions to indices, from a session that has its own RuntimeWarning filter; an invalid-argument exit of
+    # the SIP export
+    for entry, uf in (("footprint_center", True), ("w2aiv", True), ("w2aiv", False), ("sip_smallbox", False)):
+        p = S.gen_params(rng, distortion=True)
+        p["scale"] = 10 ** rng.uniform(-5, -4)
+        yield {"entry": entry, "mode": {}, "analytic": entry != "sip_smallbox", "params": dict(p, dist=None) if entry != "sip_smallbox" else p, "user_filter": uf,
+               "ks": [rng.randint(0, 1000) for _i in range(2)] if q else "all", "interrupt": False}
     reps = 1 if q else 4
     for _ in range(reps):
         for entry, mode in combos:
